@@ -663,6 +663,7 @@ def impl_vs_impl(chk, bA, bB, xv, pA, pB, what):
 @register
 class C09(NlpCheck):
     pid = "C09"
+    uses_generated = True
     slices = ["parametric-nlp", "shifted-operands-with-interval-parameters", "constants-written-in", "set_value-histories", "matrix-valued-parameters", "horizon-parameter-histories"]
     tags = None
     whole = True
@@ -2307,6 +2308,7 @@ def sym_offsets(sizes):
 @register
 class C10(Check):
     pid = "C10"
+    uses_generated = True
     slices = ["starting-point", "nlp-unchanged-by-guesses", "spline-coefficients"]
 
     def explanation(self):
